@@ -49,8 +49,16 @@ THEOREMS = [
     "Qentem.Props.C11P.parsesExactly17_partial",
     "Qentem.Props.C11P.roundtrip17_of_formatter",
     "Qentem.Props.C11P.parse_close17",
+    "Qentem.Props.C09.real_within_one_ulp_dotzero_end",
+    "Qentem.Props.C09.real_within_one_ulp_dotzero_exp",
+    "Qentem.Props.C09.zero_dot_zeros_end",
+    "Qentem.Props.C09.zero_dot_zeros_exp",
+    "Qentem.Props.C09.zero_exp",
+    "Qentem.Props.C09.real_within_one_ulp_small_end",
+    "Qentem.Props.C09.real_within_one_ulp_small_exp",
+    "Qentem.Props.C09.real_within_one_ulp_int_exp",
 ]
-OPEN = ["Qentem.Props.C09.real_within_one_ulp (proved for every mantissa on: integer mantissa <= 19 digits with exponent of either sign; d1.ddd[e+-k] numerals (<= 18 digits, fraction not the single digit 0); 0.000ddd (<= 8 zeros, <= 17 digits); every %.17g/%.9g-shaped text (parse_close17); the negative-exponent pipeline itself for every mantissa and x < 344 (negexp_one_ulp_every_mantissa); open for .ddd, '1.0'-style fractions, more than 8 leading fraction zeros, mantissas beyond the 19-unit window; searched by the exact-Rat oracle on the C++ results)",
+OPEN = ["Qentem.Props.C09.real_within_one_ulp (proved, every mantissa value, exponents of ANY number of digits (nine or more significant ones are rejected as out of range), for every numeral whose significant digits fit the 19-unit scan window: integer mantissa <= 19 digits [e+-k]; d1.ddd[e+-k] (<= 18 digits incl. the 'ddd.0' single-zero fraction); 0.000ddd[e+-k] with any number of leading zeros (< 10^8 - 1000 with an exponent) and <= 18 significant digits; zero-valued numerals 0.000[e+-k], 0e+-k; every %.17g/%.9g-shaped text (parse_close17). OPEN: mantissas that do not fit the window (20 or more significant digits, or 19 digits plus a dot: the scan truncates and the tail ignores digits - needs the truncation slack of 10^-18 carried through both error analyses and value-tracking scan lemmas for every place the window can cut); texts of 10^8 units or more are outside the documented range of the exponent arithmetic; searched by the exact-Rat oracle on the C++ results)",
         "Qentem.Props.C09.overflow_reported (proved inside the class theorems: NotANumber only when the value really exceeds every finite double, never a finite pattern above max; open outside the class)"]
 
 D0, D9, DOT, LE, UE, PLUS, MINUS = 48, 57, 46, 101, 69, 43, 45
@@ -295,7 +303,7 @@ def embed(text, rng, mode):
 
 def run(ctx):
     ctx.gen_constants(["StrToNum"])
-    ctx.prove(["Qentem.Props.C09", "Qentem.Props.C11Parser", "Qentem.Props.C11Float"], THEOREMS, open_statements=OPEN)
+    ctx.prove(["Qentem.Props.C09", "Qentem.Props.C09More", "Qentem.Props.C11Parser", "Qentem.Props.C11Float"], THEOREMS, open_statements=OPEN)
     drv = ctx.build_driver()
     exe = ctx.build_harness("strtonum_harness.cpp")
     if not (drv and exe):
